@@ -74,20 +74,23 @@ def _short(a):
 
 
 class State:
-    __slots__ = ("cells", "facts", "_from")
+    __slots__ = ("cells", "facts", "_from", "frozen")
 
-    def __init__(self, cells=None, facts=None):
+    def __init__(self, cells=None, facts=None, frozen=None):
         self.cells = dict(cells or {})
         self.facts = dict(facts or {})     # LF key -> upper bound c  (sum <= c)
         self._from = None
+        # values loaded from a cell earlier in the current block and overwritten since (`a[i++]`): load inst id -> LF in today's atoms
+        self.frozen = dict(frozen or {})
 
     def copy(self):
-        c = State(self.cells, self.facts)
+        c = State(self.cells, self.facts, self.frozen)
         c._from = self._from
         return c
 
     def sig(self):
-        return (tuple(sorted(self.cells.items(), key=lambda kv: str(kv[0]))), tuple(sorted(self.facts.items(), key=lambda kv: str(kv[0]))))
+        return (tuple(sorted(self.cells.items(), key=lambda kv: str(kv[0]))), tuple(sorted(self.facts.items(), key=lambda kv: str(kv[0]))),
+                tuple(sorted((k, v.k, v.key()) for k, v in self.frozen.items())) if self.frozen else ())
 
 
 def join(a, b):
@@ -177,6 +180,8 @@ class FunctionAnalysis:
         i = self.fn.insts[o["id"]]
         op = i.op
         if op == "load":
+            if st.frozen and i.id in st.frozen:
+                return st.frozen[i.id]
             c = self.cell_of_ptr(i["ptr"])
             if c is not None:
                 return LF(0, {("cell",) + c: 1})
@@ -428,6 +433,22 @@ class FunctionAnalysis:
             shift = None
             if l is not None and l.t == {atom: 1}:
                 shift = l.k
+            # values loaded from this cell earlier in the block keep denoting the OLD contents
+            exact = shift is not None and c[0] == "a" and v[0] >= rng[0] and v[1] <= rng[1]
+            old_iv = self.atom_iv(atom, st)
+            for fid, fl_ in list(st.frozen.items()):
+                if atom in fl_.t:
+                    if exact:
+                        st.frozen[fid] = LF(fl_.k - fl_.t[atom] * shift, fl_.t)
+                    else:
+                        iv_ = self.iv_lf(fl_, st)
+                        st.frozen[fid] = LF(0, {("expr", ("old", fid), "old", iv_[0], iv_[1]): 1})
+            for prev in inst.bb.insts[:inst.idx]:
+                if prev.op == "load" and prev.id not in st.frozen and self.cell_of_ptr(prev["ptr"]) == c:
+                    if exact:
+                        st.frozen[prev.id] = LF(-shift, {atom: 1})
+                    else:
+                        st.frozen[prev.id] = LF(0, {("expr", ("old", prev.id), "old", old_iv[0], old_iv[1]): 1})
             newfacts = {}
             for fk, ub in st.facts.items():
                 d = dict(fk)
@@ -796,6 +817,7 @@ class FunctionAnalysis:
             self.pre[inst.id] = []
         for st0 in states:
             st = st0.copy()
+            st.frozen = {}
             dead = False
             for inst in bb.insts:
                 self._remember(inst, st)
